@@ -255,6 +255,11 @@ func newChecker(o *storage.LookupOptions, op *predicate.Predicate) *checker {
 // CheckGlobalTimeBounds checks if a predicate should be considered given the global
 // time bounds.
 func (c *checker) CheckGlobalTimeBounds(p *predicate.Predicate) bool {
+	// A predicate handed to a lookup only matches predicates of the same kind:
+	// "p"@[] does not match "p"@[2012-04-10T04:21:00Z] and vice versa.
+	if c.op != nil && c.op.Type() != p.Type() {
+		return false
+	}
 	if p.Type() == predicate.Immutable {
 		return true
 	}
